@@ -15,7 +15,8 @@ GPR = {"AX", "BX", "CX", "DX", "SI", "DI", "BP", "SP", "R8", "R9", "R10", "R11",
 MOVS = {"MOVQ": 8, "MOVL": 4, "MOVW": 2, "MOVB": 1}
 ALU = {"ADDQ": ("add", 8), "SUBQ": ("sub", 8), "ANDQ": ("and", 8), "ORQ": ("or", 8), "XORQ": ("xor", 8),
        "SHLQ": ("shl", 8), "SHRQ": ("shr", 8), "ORB": ("or", 1), "XORB": ("xor", 1)}
-JCC = {"JLT": "lt", "JEQ": "eq", "JGT": "gt", "JLE": "le", "JNE": "ne", "JGE": "ge"}
+JCC = {"JLT": "lt", "JEQ": "eq", "JGT": "gt", "JLE": "le", "JNE": "ne", "JGE": "ge", "JZ": "eq", "JNZ": "ne",
+       "JCS": "lt", "JCC": "ge", "JHI": "gt", "JLS": "le", "JLO": "lt", "JHS": "ge"}
 # vector opcodes whose memory source is narrower than the destination register
 BCAST = {"VPBROADCASTD": 4, "VBROADCASTI32X2": 8, "VBROADCASTI32X4": 16}
 VEC_OK = {"VPXORD", "VPROLD", "VPBROADCASTD", "VGF2P8AFFINEQB", "VGF2P8AFFINEINVQB", "VPCLMULQDQ", "VMOVDQU32",
@@ -75,8 +76,15 @@ def classify(op, ops, where):
         ins.update(cl="jmp", t=int(ops[0]))
     elif op in JCC:
         ins.update(cl="jcc", fn=JCC[op], t=int(ops[0]))
-    elif op == "CMPQ":
-        ins.update(cl="cmp", a=o[0], b=o[1], w=8)
+    elif op in ("CMPQ", "CMPL", "CMPW", "CMPB"):
+        ins.update(cl="cmp", a=o[0], b=o[1], w={"Q": 8, "L": 4, "W": 2, "B": 1}[op[-1]])
+    elif op in ("TESTQ", "TESTL", "TESTW", "TESTB"):      # flags from a AND b, nothing written
+        ins.update(cl="test", fn="and", a=o[0], b=o[1], w={"Q": 8, "L": 4, "W": 2, "B": 1}[op[-1]])
+    elif op in ("INCQ", "DECQ", "INCL", "DECL"):
+        ins.update(cl="alu", fn="add" if op.startswith("INC") else "sub", a=dict(k="i", r="", v=1), b=o[0],
+                   w=8 if op.endswith("Q") else 4)
+    elif op in ("MOVBQZX", "MOVWQZX", "MOVLQZX", "MOVBLZX", "MOVWLZX"):
+        ins.update(cl="mov", a=o[0], b=o[1], w=8)      # zero-extending load: the whole destination register is written
     elif op == "LEAQ":
         ins.update(cl="lea", a=o[0], b=o[1], w=8)
     elif op in MOVS and any(x["k"] == "v" for x in o):
